@@ -273,8 +273,7 @@ def check_threads(case):
   gin.parse_config(CONFIG)
   build_shared()
   tape = case['schedule']
-  rng = random.Random(tape.get('s') or 1)
-  choices = list(tape.get('t', [])) + [rng.randrange(4) for _ in range(tape.get('n', 0))]
+  choices = sched.expand_schedule(tape)
   s = sched.Scheduler(choices, [os.path.dirname(gin.__file__)], watch=('config_scope',))
   sched.install_coop_locks(gin.config, s)
   n = len(case['programs'])
@@ -354,7 +353,7 @@ def _threads_case(draw):
   spec = st.one_of(_valid_spec, _valid_spec, _spec)
   programs = [draw(_nodes(2, spec)) for _ in range(n)]
   schedule = {'t': draw(st.lists(st.integers(0, 3), max_size=40)),
-              's': draw(st.integers(1, 2**31)), 'n': draw(st.sampled_from([100, 300, 560]))}
+              's': draw(st.integers(1, 2**31)), 'n': draw(st.sampled_from([100, 300, 560, 1500])), 'burst': draw(st.booleans())}
   return {'kind': 'threads', 'programs': programs, 'schedule': schedule}
 
 
